@@ -18,7 +18,7 @@
    normalised there (interval 0, no out-of-memory events: it does not influence
    the behaviour). *)
 From Coq Require Import Lia.
-From Torf Require Import Base Pipeline PipelineProofs FlowProofs PipeExplore PipeExploreProofs PipeConfigs.
+From Torf Require Import Base Pipeline PipelineProofs FlowProofs PipeExplore PipeExploreProofs NormProofs PipeConfigs.
 Open Scope Z_scope.
 
 (* soundness of the exploration: what the checker accepts holds for every reachable state *)
@@ -27,6 +27,15 @@ Theorem C03_exploration_sound : forall fuel depth c ref may_false raises,
   forall s, xreach c s -> goodb c ref may_false raises s = true /\ finishes c s.
 Proof. exact checkb_sound. Qed.
 Print Assumptions C03_exploration_sound.
+
+(* the explored (clock-normalised) system covers the model's own runs: for interval 0 and inputs without
+   out-of-memory events, every state reachable in the model under any schedule and any advance of the clock
+   normalises to an explored state -- so the exploration theorems below speak about [reach] *)
+Theorem C03_exploration_covers_model : forall c ref may_false raises,
+  cf_interval c = 0 -> no_oom (cf_items c) -> all_schedules_ok c ref may_false raises ->
+  forall s, reach c s -> goodb c ref may_false raises (norm s) = true /\ finishes c (norm s).
+Proof. intros c ref mf rs Hi Ho Hall s Hr. exact (Hall (norm s) (reach_covered c s Hi Ho Hr)). Qed.
+Print Assumptions C03_exploration_covers_model.
 
 (* reading goodb *)
 Theorem C03_no_deadlock : forall c ref mf rs s,
